@@ -154,6 +154,6 @@ for k, v in TEXT.items():
     REGISTRY[k]["level_note"] = LEVEL_NOTE
 
 # properties registered in MANIFEST.json (a property is claimed once its check is green on the unchanged tree)
-CLAIMED = ["C01", "C02", "C03", "C08", "C13", "C10", "C14", "C15", "C16"]
-NOT_CLAIMED = {p: "check under construction in this session (model and theorems exist, engine being registered); not yet claimed"
-               for p in ["C04", "C05", "C09", "C11", "C12", "C17", "C19", "C20"]}
+CLAIMED = ["C01", "C02", "C03", "C06", "C07", "C08", "C10", "C13", "C14", "C15", "C16", "C18"]
+PENDING_REASON = "check under construction in this session (model and theorems exist, engine being registered); not yet claimed"
+NOT_CLAIMED = {f"C{i:02d}": PENDING_REASON for i in range(1, 21) if f"C{i:02d}" not in CLAIMED}
